@@ -420,7 +420,12 @@ impl TrackerEngine {
             }
             "C06" => strip_ops(&mut c, true, true),
             "C05" | "C20" | "C02" => strip_ops(&mut c, false, false),
-            "C12" => strip_ops(&mut c, false, false),
+            "C12" => {
+                // batch kinds are also compared with their simple twin: empty calls (which a batch
+                // request cannot express, and which advance the epoch of a simple tracker) go
+                let batch = c.cfg.kind.is_batch();
+                strip_ops(&mut c, false, batch)
+            }
             _ => {}
         }
         if self.prop == "C06" && r.chance(1, 8) {
@@ -550,7 +555,12 @@ impl Engine for TrackerEngine {
         let mut plan = plan.clone();
         plan.calm = case["calm"].as_bool().unwrap_or(false);
         let prop = self.prop;
-        let differential = matches!(prop, "C04" | "C05" | "C06" | "C20") || (prop == "C03" && !variants.is_empty());
+        // C12 on a batch tracker: the decisions of the simple twin (which RefVisual validates step
+        // by step) are the specification also where the batch run itself cannot be re-derived
+        // (pipelined batches whose galleries are not observable)
+        let differential = matches!(prop, "C04" | "C05" | "C06" | "C20")
+            || (prop == "C03" && !variants.is_empty())
+            || (prop == "C12" && tc.cfg.kind.is_batch());
         // exec 0: the history itself (reference configuration for differentials)
         let mut base = tc.clone();
         if prop == "C05" {
@@ -711,7 +721,7 @@ impl Engine for TrackerEngine {
                     }
                 }
             }
-            "C06" => {
+            "C06" | "C12" => {
                 // the simple twin is the specification
                 let mut c = base.clone();
                 c.cfg.kind = base.cfg.kind.simple_twin();
@@ -738,7 +748,8 @@ impl Engine for TrackerEngine {
                 let ca = canon(&base, &h0, upto, None, true);
                 let cb = canon(&c, &h, upto, None, true);
                 if let Some((i, d, kind)) = first_diff(&ca.events, &cb.events, false) {
-                    out.violation = Some(report("C06", "batch-differs-from-simple", "twin", kind,
+                    let clause = if prop == "C12" { "batch-decisions-differ-from-simple" } else { "batch-differs-from-simple" };
+                    out.violation = Some(report(prop, clause, "twin", kind,
                         format!("batch tracker ({} distance shards, {} voting threads) and simple tracker differ at event {i}: {d}", base.cfg.shards, base.cfg.voting_shards)));
                     return out;
                 }
